@@ -199,6 +199,20 @@ PROPERTIES = {
                      "inner loops over k-points and spin channels unrolled for Nk = Nspin = 1"],
         explanation="symbolic execution of the real minimiser bodies with a ghost evaluation counter and loop invariants over the iteration",
     ),
+    "C17": dict(
+        engines="Z",
+        claim="XYZ / POSCAR / CUBE writers followed by the readers return every atom with its species at its position and the cell, for "
+              "SYMBOLIC coordinates and cell entries and for every iteration order of unordered collections (text kept symbolically, "
+              "formatting/parsing of one number as an assumed inverse pair); foreign-format clauses (Direct coordinates, scaling) and JSON "
+              "object hooks as listed in the evidence. Species lists are concrete instances (1, 3 and 4 atoms, unsorted); HDF5 and the "
+              "'continues the SCF identically' clause are outside (bounded stand-in only).",
+        note="float formatting/parsing is exact to the printed precision by assumption; numpy argsort/unique are executed natively on the concrete labels",
+        modules=["contracts.c17"],
+        level="proof",
+        trusted_base=["ast (parser)", "in-house AST->z3 symbolic executor with symbolic text (engine Z)", "z3 5.1"],
+        assumptions=["format/parse inverse pair ('float-format')", "species lists are concrete instances"],
+        explanation="writer and reader executed symbolically on the same in-memory text",
+    ),
 }
 
 
